@@ -394,6 +394,14 @@ func c18CgSite(out []byte, res c18CgResult) string {
 		return kind
 	}
 	ln := res.ErrLine - 1
+	if kind == "bad-subposition" && ln >= 0 && ln < len(lines) {
+		if l := lines[ln]; strings.HasPrefix(l, "*") || strings.HasPrefix(l, "+") || strings.HasPrefix(l, "-") ||
+			(strings.HasPrefix(l, "calls=") && strings.ContainsAny(strings.TrimPrefix(l, "calls="), "*+-")) {
+			if res.ErrLine <= 12 || !c18HasCostLineBefore(lines, ln) {
+				return "relative-subposition-without-cost-line"
+			}
+		}
+	}
 	if kind == "bad-line" || kind == "bad-header" || kind == "bad-subposition" || kind == "bad-cost" || kind == "call-without-cost-line" {
 		// a line that is no callgrind line: which line above was cut in two by a newline?
 		for j := ln - 1; j >= 0 && j >= ln-3; j-- {
@@ -411,6 +419,15 @@ func c18CgSite(out []byte, res c18CgResult) string {
 		}
 	}
 	return kind
+}
+
+func c18HasCostLineBefore(lines []string, ln int) bool {
+	for j := 0; j < ln && j < len(lines); j++ {
+		if l := lines[j]; l != "" && (l[0] >= '0' && l[0] <= '9') {
+			return true
+		}
+	}
+	return false
 }
 
 func c18NormName(s string) string {
@@ -476,7 +493,11 @@ func c18CompareGraph(res c18CgResult, g *graph.Graph) (out []c18Finding) {
 		return ""
 	}
 	if d := diff(wantCost, gotCost); d != "" {
-		out = append(out, c18Finding{"cost-line-position", "cost lines do not decode to the nodes' (file, function, address, line): " + d})
+		what := "cost lines do not decode to the nodes' (file, function, address, line): "
+		if len(wantCost) != len(gotCost) {
+			what = "every node of the graph must have its own self-cost line (later relative subpositions are based on it): "
+		}
+		out = append(out, c18Finding{"cost-line-position", what + d})
 	}
 	if d := diff(wantNames, gotNames); d != "" {
 		out = append(out, c18Finding{"call-names", "calls= entries do not name the graph's edges: " + d})
